@@ -82,7 +82,7 @@ def c14_blocks(rng, tier):
 
 def c12_blocks(rng, tier):
     blocks = []
-    n = 300 if tier == "quick" else 3000
+    n = 300 if tier == "quick" else 10000
     good = [1, 2, 10, 12, 14, 15, 17, 34, 64]
     bad = [9, 19, 4, 8, 11, -1, -5, 128, 200, 1000, 100, 65, 127, 0, 32]
     for _ in range(n):
